@@ -79,6 +79,85 @@ def shrink(c, idx):
     return d
 
 
+def hs_monitor(c):
+    """leg hsinject: the property's own predicate on one run (handshake with one forged datagram
+    injected, then k Writes by the peer): every payload Read returned is one the peer wrote, 1-1.
+    Returns None or (monitor, text)."""
+    if c["hs"] != "ok":
+        return None
+    left = list(c["writes"])
+    for i, r in enumerate(c["reads"]):
+        if r in left:
+            left.remove(r)
+            continue
+        forged = c["inj"].get("payload") is not None and r == c["inj"].get("payload")
+        dup = r in c["writes"]
+        if forged or dup:
+            return ("forged-payload-delivered-after-handshake",
+                    "Read #%d returned the payload of a forged %s record (type %d, epoch %d) injected during the "
+                    "handshake; the peer never wrote it%s" % (i + 1, c["inj"]["kind"], c["inj"]["ct"],
+                                                             c["inj"]["epoch"], " a second time" if dup else ""))
+        return ("read-returned-unwritten-payload", "Read #%d returned %d bytes the peer never wrote" % (i + 1, len(r) // 2))
+    if left:
+        return ("genuine-payload-lost-after-handshake-injection",
+                "%d of %d payloads written by the peer were never returned by Read" % (len(left), len(c["writes"])))
+    return None
+
+
+def run_hsinject(chk):
+    """forged records injected while the handshake runs (theorems C05_unprotected_appdata_never_delivered ...)"""
+    out = vlib.out_path("c05hi")
+    rc, o = vlib.go_test(".", "^TestVerifC05HsInject$", {"VERIF_SEED": chk.seed, "VERIF_TIER": chk.tier,
+                                                         "VERIF_OUT": out}, tags=["c05"], timeout=2400)
+    cases = vlib.read_jsonl(out)
+    vlib.cleanup(out)
+    found = False
+    if rc != 0:
+        kind = vlib.classify_go_failure(o)
+        if kind == "panic":
+            found = True
+            chk.finding("conn.go receive path during the handshake", {"monitor": "panic", "leg": "hsinject"},
+                        "panic while a forged record was injected into a running handshake", {"output": o[-4000:]})
+        else:
+            chk.broken("correspondence harness TestVerifC05HsInject no longer runs against /repo (%s)" % kind, o)
+    elif not cases:
+        chk.broken("TestVerifC05HsInject produced no observations", o)
+    seen = set()
+    for c in cases:
+        m = hs_monitor(c)
+        if not m:
+            continue
+        found = True
+        sig = {"monitor": m[0], "leg": "hsinject", "version": c["version"], "inj": c["inj"].get("kind", "none")}
+        key = (m[0], c["version"], sig["inj"])
+        if key in seen:
+            continue
+        seen.add(key)
+        chk.finding("conn.go handleApplicationDataRecord / parkEarlyApplicationData (records arriving while the handshake runs)",
+                    sig, "%s [variant %s, target %s, injected after datagram %d of %d: %s]" % (
+                        m[1], c["variant"], c["target"], c["point"], c["points"], c["after"]),
+                    {"how": "run a handshake of `variant` in the lab; after `point` datagrams have been delivered put "
+                            "the datagram `inj.hex` on the wire towards `target` with the peer's address as source; "
+                            "complete the handshake; the peer Writes `writes`; `reads` is what Conn.Read returned on "
+                            "`target` (must map 1-1 into `writes`)",
+                     "case": c})
+    failed = [c for c in cases if c["hs"] != "ok"]
+    inj_cases = [c for c in cases if c["point"] >= 0]
+    keys = [(c["variant"], c["target"], c["point"], c["inj"]["kind"], c["inj"]["pkind"]) for c in inj_cases
+            if c["hs"] == "ok"]
+    kinds = {}
+    for c in inj_cases:
+        kinds[c["inj"]["kind"]] = kinds.get(c["inj"]["kind"], 0) + 1
+    chk.count("hsinject", len(inj_cases), keys,
+              samples=[{k: c[k] for k in ("variant", "target", "point", "after", "inj", "hs", "reads")}
+                       for c in inj_cases[:1] + inj_cases[-1:]])
+    chk.leg_info("hsinject", variants=sorted({c["variant"] for c in cases}), injection_kinds=kinds,
+                 runs=len(inj_cases), handshake_failed_skipped=len(failed),
+                 handshake_failed_by_kind=sorted({(c["version"], c["inj"].get("kind", "none")) for c in failed}),
+                 points={c["variant"]: c["points"] for c in cases})
+    return found
+
+
 def run(chk):
     proved = chk.prove()
     out = vlib.out_path("c05")
@@ -140,6 +219,8 @@ def run(chk):
     if not proved and not found:
         where, pout = getattr(chk, "proof_error", ("?", ""))
         chk.broken("proof obligation Properties/C05.v no longer checks (%s)" % where, pout)
+    # forged records injected while the handshake runs (every datagram boundary, both directions)
+    run_hsinject(chk)
     # DTLS 1.3 record layer: model Rec/Rec13.v, theorems Properties/C05rec13.v, correspondence legs
     import rec13lib
     rec13lib.run_c05(chk)
@@ -148,7 +229,12 @@ def run(chk):
         rule="per connection (15 suite/CID/padding variants): every single-bit flip of the record header, bit flips "
              "in first/last body bytes, every rewritten content type/version/epoch/sequence number/length, "
              "truncation, extension, CID alter/remove/insert, splice from a second session of the same variant, then "
-             "the genuine record; finally a replay. Non-trivial = non-genuine arrival; distinct by (variant, mutation).",
+             "the genuine record; finally a replay. Non-trivial = non-genuine arrival; distinct by (variant, mutation). "
+             "Leg hsinject: per variant (DTLS 1.2 +-CID, DTLS 1.3 +-CID) x target (client, server) x every datagram "
+             "boundary of the handshake x forged record class (epoch-0 application_data, epoch-0 records of other "
+             "types carrying an application payload, protected-epoch records with a garbage body) x payload: one run = "
+             "handshake with the injection, k Writes by the peer, all Reads on the target; reads must map 1-1 into "
+             "writes; runs whose handshake failed are skipped and counted.",
         assumptions=["int_ctxt: a record authenticates under a header only if the peer sealed it under exactly that "
                      "header (AEAD/CBC-HMAC integrity; AAD/nonce injectivity is C10's theorem)",
                      "the DTLS 1.3 record path has its own model Rec/Rec13.v and theorems Properties/C05rec13.v (leg rec13)"])
